@@ -3,7 +3,7 @@
 From Coq Require Import Reals ZArith QArith Qreals List Lra Lia.
 From Coquelicot Require Import Coquelicot.
 From ADV Require Import Base.Fl Base.Num C01.Model C01.ModelR C01.Spec C01.ProofsComb C01.ProofsOps C01.ProofsProg
-     C01.ProofsAlias C01.ProofsRed C01.ProofsSmooth C01.ProofsSeq C01.ProofsLSM C01.Corr C01.ProofsLSMF.
+     C01.ProofsAlias C01.ProofsRed C01.ProofsSmooth C01.ProofsSeq C01.ProofsLSM C01.Corr C01.ProofsLSMF C01.ProofsFar.
 Import ListNotations.
 Open Scope R_scope.
 
@@ -27,6 +27,46 @@ Theorem logadd_program_any_receiver : forall S n o c a b t (s : St) A B,
   exists s', do_logadd (FlR S) idR c a b t s = Ok s' /\ (forall q, q <> c -> q <> t -> s' q = s q) /\ wf (s' t) /\
     rep S n o (s' c) (lse_step A B).
 Proof. exact logadd_any. Qed.
+(* (L1') round 7 — the operand-ordering prologue keeps exp() away from overflow, however far apart the operands are:
+   after c.LogAdd(a, b, t) the temporary holds ln (1 + exp (min - max)), the argument handed to exp is never positive,
+   and the temporary lies in (0, ln 2] (so the result max + t is representable whenever max is) *)
+Theorem logadd_temporary_bounded : forall S n o c a b t (s : St) A B,
+  wf (s c) -> wf (s t) -> t <> c -> not_reg a t -> not_reg b t -> not_reg a c -> not_reg b c ->
+  rep S n o (rd s a) A -> rep S n o (rd s b) B ->
+  exists s', (do_logadd (FlR S) idR c a b t s = Ok s') /\
+    (rval (s' t) = ln (1 + exp (Rmin (jv A) (jv B) - Rmax (jv A) (jv B)))) /\
+    (Rmin (jv A) (jv B) - Rmax (jv A) (jv B) <= 0) /\ (0 < rval (s' t) <= ln 2).
+Proof. exact logadd_tmp_bounded. Qed.
+Example logadd_far_hyps_nontrivial :   (* operands 998 apart: exp 998 is not representable in binary64 *)
+  let s : @St R := upd (upd stR0 0 (mkReg K64 2 1 1 [1] [])) 1 (mkReg K64 1000 1 1 [5] []) in
+  wf (s 2%nat) /\ wf (s 3%nat) /\ 3%nat <> 2%nat /\ not_reg (Rg 0) 3 /\ not_reg (Rg 1) 3 /\ not_reg (Rg 0) 2 /\ not_reg (Rg 1) 2 /\
+  rep Sp0 1 1 (rd s (Rg 0)) (jvar 2 0) /\ rep Sp0 1 1 (rd s (Rg 1)) (mkJet 1000 (fun _ => 5) (fun _ _ => 0)) /\
+  709 < Rmax (jv (jvar 2 0)) 1000 - Rmin (jv (jvar 2 0)) 1000.
+Proof. exact logadd_far_hyps. Qed.
+(* (L1'') round 7 — exact stationary points on a REUSED receiver: a chain-rule coefficient that is exactly 0 still
+   overwrites the slot.  After c.Op(a) at a point with f'(a) = 0 every gradient slot of c is 0 whatever c held before
+   (stale jet of an earlier computation with the same N and order) and the Hessian is g_i g_j f''(a); after c.Op(a, b)
+   with both first-order partials 0 (x * y at (0, 0)) every gradient slot is 0, for every receiver (operands included) *)
+Theorem stationary_point_overwrites_stale_slots : forall S n o op c a (s : St) A,
+  wf (s c) -> rep S n o (rd s a) A -> m_f1 (FlR S) op (jv A) = 0 ->
+  exists s', do_mon (FlR S) idR op c a s = Ok s' /\
+    ((1 <= o)%nat -> forall i, (i < n)%nat -> gd (FlR S) (s' c) i = 0) /\
+    ((2 <= o)%nat -> forall i j, (i < n)%nat -> (j < n)%nat ->
+       gh (FlR S) (s' c) i j = jg A i * jg A j * m_f2 (FlR S) op (jv A)).
+Proof. exact stationary_mon. Qed.
+Theorem stationary_point_two_arguments : forall S n o op c a b (s : St) A B,
+  wf (s c) -> rep S n o (rd s a) A -> rep S n o (rd s b) B ->
+  d_f10 (FlR S) op (jv A) (jv B) = 0 -> d_f01 (FlR S) op (jv A) (jv B) = 0 ->
+  exists s', do_dy (FlR S) idR op c a b s = Ok s' /\
+    ((1 <= o)%nat -> forall i, (i < n)%nat -> gd (FlR S) (s' c) i = 0).
+Proof. exact stationary_dy. Qed.
+Example stationary_hyps_nontrivial :   (* cos at 0 and x * x at 0; the receiver (register 1) holds a stale gradient 3 *)
+  let s : @St R := upd (upd stR0 0 (mkReg K64 0 1 1 [1] [])) 1 (mkReg K64 7 1 1 [3] []) in
+  wf (s 1%nat) /\ rep Sp0 1 1 (rd s (Rg 0)) (jvar 0 0) /\
+  m_f1 (FlR Sp0) OCos (jv (jvar 0 0)) = 0 /\
+  d_f10 (FlR Sp0) OMul (jv (jvar 0 0)) (jv (jvar 0 0)) = 0 /\ d_f01 (FlR Sp0) OMul (jv (jvar 0 0)) (jv (jvar 0 0)) = 0 /\
+  gd (FlR Sp0) (s 1%nat) 0 = 3.
+Proof. exact stationary_hyps. Qed.
 Theorem lse_step_closed_form : forall A B,
   let w := sigm (jv A - jv B) * sigm (jv B - jv A) in
   jv (lse_step A B) = ln (exp (jv A) + exp (jv B)) /\
